@@ -3,6 +3,7 @@ C15 — Applications get matched replies, one at a time, in fair round-robin (st
 Function-level theorems about `Model/Station.lean`, for every input and every application script.
 -/
 import ProfiVerif.Model.Station
+import ProfiVerif.Lemmas.StationTrace
 
 namespace PV.C15
 open PV
@@ -117,5 +118,383 @@ theorem round_robin_step (c : Ctx) (now : Int) (hp : Bool) (k : Nat) (c1 : Ctx)
       let c2 := upd c1 fun s => { s with st := .useToken { d with firstApp := some first } fcd, nextApp := next }
       if next = first then (.ok c2, false) else appsTransmit now hp k c2 := by
   simp only [appsTransmit, hd, hst]
+
+
+/-! ## Lift to whole polls (`Station.poll`, any start state, any arriving bytes, any time, any
+application scripts) and to arbitrary API-call sequences
+
+Helper lemmas: `Lemmas/StationTrace.lean` (`poll_calls`: the callbacks of one poll by start state).
+The theorems about one poll are conditional on the poll returning regularly (`.ok c'`) and need no
+hypothesis on the start state at all; that the poll does return regularly from every state satisfying
+the station invariant is C05 (`pollInner_good`, `poll_never_panics`).  The `_trace` forms combine
+both: they speak about every step of every API-call sequence from a fresh station. -/
+
+open C05
+
+theorem validReply_eq (ts a : Nat) (t : Telegram) : ValidReply ts a t = validReplyB ts a t := by
+  cases t <;> rfl
+
+/-- **`ask_only_with_token`** (one whole poll).  If a poll makes a `transmit_telegram` callback, then
+the station was online and, at the start of that poll, either in `UseToken`, or in
+`AwaitDataResponse` — and in the latter case the first callback of the poll is the time-out of the
+outstanding request (the token visit continues in the same poll).  These two are the only start states:
+a poll starting in Offline, ListenToken, ActiveIdle (even if it accepts the token in this poll),
+ClaimToken, PassToken, CheckTokenPass or AwaitStatusResponse never asks an application. -/
+theorem ask_only_with_token (s : Station) (apps : Apps) (now : Int) (phy : Bool) (rx : Bytes) (c' : Ctx)
+    (h : s.poll apps now phy rx = .ok c') (i : Nat) (hp : Bool) (ans : AppAnswer)
+    (hr : AppCall.transmit i hp ans ∈ c'.calls) :
+    s.online = true ∧ ((∃ d fcd, s.st = .useToken d fcd) ∨
+      (∃ a d, s.st = .awaitData a d ∧ c'.calls.head? = some (.timeout s.nextApp a))) := by
+  rcases poll_calls s apps now phy rx c' h with ⟨hc, -⟩ | ⟨hon, hu, -, -⟩ | ⟨hon, a, d, hst, hcase⟩
+  · rw [hc] at hr; cases hr
+  · exact ⟨hon, .inl hu⟩
+  · refine ⟨hon, .inr ⟨a, d, hst, ?_⟩⟩
+    rcases hcase with ⟨t, -, hc, -⟩ | ⟨new, hc, -, -⟩
+    · rw [hc] at hr; simp at hr
+    · rw [hc]; rfl
+
+/-- **`one_outstanding`** (one whole poll).  A poll that starts in `AwaitDataResponse` makes no callback
+at all, or delivers exactly the admitted reply (to the requesting application, for the awaited
+address) and nothing else, or delivers the time-out first and only then asks applications again.  So
+no application is asked while the reply is still outstanding. -/
+theorem one_outstanding (s : Station) (apps : Apps) (now : Int) (phy : Bool) (rx : Bytes) (c' : Ctx)
+    (h : s.poll apps now phy rx = .ok c') (a : Nat) (d : UseData) (hst : s.st = .awaitData a d) :
+    c'.calls = [] ∨
+    (∃ t, ValidReply s.p.address a t = true ∧ c'.calls = [.reply s.nextApp a t] ∧ c'.s.st = .useToken d true) ∨
+    (∃ new, c'.calls = .timeout s.nextApp a :: new ∧ ∀ r ∈ new, ∃ i hp ans, r = AppCall.transmit i hp ans) := by
+  rcases poll_calls s apps now phy rx c' h with ⟨hc, -⟩ | ⟨-, ⟨d', fcd, hu⟩, -, -⟩ | ⟨-, a', d', hst', hcase⟩
+  · exact .inl hc
+  · rw [hst] at hu; cases hu
+  · rw [hst] at hst'; cases hst'
+    rcases hcase with ⟨t, hv, hc, hs⟩ | ⟨new, hc, har, -⟩
+    · exact .inr (.inl ⟨t, by rw [validReply_eq]; exact hv, hc, hs⟩)
+    · exact .inr (.inr ⟨new, hc, har⟩)
+
+/-- … in particular: as long as neither the reply nor the time-out is delivered, nobody is asked. -/
+theorem no_ask_while_waiting (s : Station) (apps : Apps) (now : Int) (phy : Bool) (rx : Bytes) (c' : Ctx)
+    (h : s.poll apps now phy rx = .ok c') (a : Nat) (d : UseData) (hst : s.st = .awaitData a d)
+    (hno : ∀ r ∈ c'.calls, ∃ i hp ans, r = AppCall.transmit i hp ans) : c'.calls = [] := by
+  rcases one_outstanding s apps now phy rx c' h a d hst with hc | ⟨t, -, hc, -⟩ | ⟨new, hc, -⟩
+  · exact hc
+  · obtain ⟨i, hp, ans, he⟩ := hno (.reply s.nextApp a t) (by rw [hc]; simp); cases he
+  · obtain ⟨i, hp, ans, he⟩ := hno (.timeout s.nextApp a) (by rw [hc]; simp); cases he
+
+/-- **`reply_or_timeout_once`, per poll** (`answer_only_when_awaited`).  A `handle_reply` /
+`handle_timeout` callback occurs only in a poll that starts in `AwaitDataResponse`, goes to the
+application whose request is outstanding, names the awaited address, is the first callback of that
+poll, is the only reply/time-out of that poll, and a delivered reply passed the admission filter.
+Unsolicited replies are never delivered. -/
+theorem answer_only_when_awaited (s : Station) (apps : Apps) (now : Int) (phy : Bool) (rx : Bytes) (c' : Ctx)
+    (h : s.poll apps now phy rx = .ok c') (r : AppCall) (hr : r ∈ c'.calls) (i a : Nat)
+    (hk : (∃ t, r = .reply i a t) ∨ r = .timeout i a) :
+    s.online = true ∧ (∃ d, s.st = .awaitData a d) ∧ i = s.nextApp ∧ c'.calls.head? = some r ∧
+    (∀ r' ∈ c'.calls.tail, ∃ i' hp ans, r' = AppCall.transmit i' hp ans) ∧
+    (∀ t, r = .reply i a t → ValidReply s.p.address a t = true) := by
+  rcases poll_calls s apps now phy rx c' h with ⟨hc, -⟩ | ⟨-, -, har, -⟩ | ⟨hon, a', d', hst', hcase⟩
+  · rw [hc] at hr; cases hr
+  · obtain ⟨i', hp, ans, he⟩ := har r hr
+    rcases hk with ⟨t, hk⟩ | hk <;> rw [hk] at he <;> cases he
+  · rcases hcase with ⟨t, hv, hc, hs⟩ | ⟨new, hc, har, -⟩
+    · rw [hc] at hr
+      simp only [List.mem_singleton] at hr
+      rcases hk with ⟨t', hk⟩ | hk
+      · rw [hk] at hr; cases hr
+        refine ⟨hon, ⟨d', hst'⟩, rfl, by rw [hc, hk]; rfl, by rw [hc]; simp, ?_⟩
+        intro t'' he; rw [hk] at he; cases he; rw [validReply_eq]; exact hv
+      · rw [hk] at hr; cases hr
+    · rw [hc] at hr
+      rcases List.mem_cons.mp hr with hr | hr
+      · rcases hk with ⟨t', hk⟩ | hk
+        · rw [hk] at hr; cases hr
+        · rw [hk] at hr; cases hr
+          refine ⟨hon, ⟨d', hst'⟩, rfl, by rw [hc, hk]; rfl, by rw [hc]; exact har, ?_⟩
+          intro t he; rw [hk] at he; cases he
+      · obtain ⟨i', hp, ans, he⟩ := har r hr
+        rcases hk with ⟨t, hk⟩ | hk <;> rw [hk] at he <;> cases he
+
+/-! ### Whole histories -/
+
+/-- What may follow `prev` (the previous callback of the whole history, if any) in the call log:
+`transmit_telegram` callbacks are unrestricted here (see `ask_only_with_token`); a reply or a time-out
+must answer the IMMEDIATELY preceding callback, which must be a request of the same application that
+expects a reply from exactly that address — and a reply must be admissible. -/
+def Answers (ts : Nat) (prev : Option AppCall) : AppCall → Prop
+  | .transmit .. => True
+  | .reply i a t => ValidReply ts a t = true ∧ ∃ hp hd pdu a8,
+      prev = some (.transmit i hp (.send hd pdu)) ∧ expectsReplyOf hd = some a8 ∧ a8.toNat = a
+  | .timeout i a => ∃ hp hd pdu a8,
+      prev = some (.transmit i hp (.send hd pdu)) ∧ expectsReplyOf hd = some a8 ∧ a8.toNat = a
+
+/-- Every callback of the log is admissible after its predecessor. -/
+def Matched (ts : Nat) (log : List AppCall) : Prop :=
+  ∀ pre r post, log = pre ++ r :: post → Answers ts pre.getLast? r
+
+theorem matched_nil (ts : Nat) : Matched ts [] := by
+  intro pre r post h; simp at h
+
+theorem matched_snoc {ts : Nat} {log : List AppCall} {r : AppCall} (hm : Matched ts log)
+    (hr : Answers ts log.getLast? r) : Matched ts (log ++ [r]) := by
+  intro pre x post he
+  rcases List.append_eq_append_iff.mp he with ⟨as, h1, h2⟩ | ⟨bs, h1, h2⟩
+  · cases as with
+    | nil => simp at h1 h2; obtain ⟨hx, -⟩ := h2; subst h1; subst hx; exact hr
+    | cons y ys =>
+      exfalso
+      have := congrArg List.length h2
+      simp at this
+  · cases bs with
+    | nil =>
+      simp at h1 h2
+      obtain ⟨hx, -⟩ := h2
+      subst h1; subst hx; exact hr
+    | cons y ys =>
+      simp at h2
+      obtain ⟨hx, hp⟩ := h2
+      subst hx
+      exact hm pre x ys h1
+
+theorem matched_append_asks {ts : Nat} : ∀ (new log : List AppCall), Matched ts log → AskRun new → Matched ts (log ++ new) := by
+  intro new
+  induction new with
+  | nil => intro log hm _; simpa using hm
+  | cons x rest ih =>
+    intro log hm har
+    have : log ++ x :: rest = (log ++ [x]) ++ rest := by simp
+    rw [this]
+    refine ih _ (matched_snoc hm ?_) (fun r hr => har r (List.mem_cons_of_mem _ hr))
+    obtain ⟨i, hp, ans, he⟩ := har x (List.mem_cons_self ..)
+    rw [he]; trivial
+
+theorem awaitLink_append {log new : List AppCall} {s : Station} (h : AwaitLink new s) : AwaitLink (log ++ new) s := by
+  intro a d hs
+  obtain ⟨pre, hp, hd, pdu, a8, e1, e2, e3⟩ := h a d hs
+  exact ⟨log ++ pre, hp, hd, pdu, a8, by rw [e1]; simp, e2, e3⟩
+
+/-- The history invariant behind `reply_or_timeout_once`: the log so far is matched, and while the
+station awaits a reply the last callback of the whole history is the awaited request. -/
+def LogInv (ts : Nat) (w : World) (log : List AppCall) : Prop :=
+  w.s.p.address = ts ∧ Matched ts log ∧ AwaitLink log w.s
+
+theorem logInv_step {ts : Nat} {w w' : World} {log l : List AppCall} (a : ApiCall) (hi : LogInv ts w log)
+    (hs : w.stepLog a = some (w', l)) : LogInv ts w' (log ++ l) := by
+  obtain ⟨hts, hm, hl⟩ := hi
+  cases a with
+  | setOnline =>
+    cases hs
+    exact ⟨hts, by simpa using hm, by simpa [AwaitLink, Station.setOnline] using hl⟩
+  | setOffline =>
+    cases hs
+    refine ⟨?_, by simpa using hm, ?_⟩
+    · have h3 := (setOffline_fields w.s).1
+      show w.s.setOffline.p.address = ts
+      rw [h3]; exact hts
+    · intro a d hst
+      have h3 := (setOffline_fields w.s).2.2.1
+      have h4 : w.s.setOffline.st = .awaitData a d := hst
+      rw [h3] at h4; cases h4
+  | poll now phy arrived =>
+    simp only [World.stepLog] at hs
+    split at hs
+    · rename_i c hc
+      cases hs
+      have hp := (poll_frame _ _ _ _ _ _ hc).1
+      refine ⟨by rw [← hts]; exact congrArg Params.address hp, ?_⟩
+      rcases poll_calls _ _ _ _ _ _ hc with ⟨h0, hkeep⟩ | ⟨-, -, har, hlink⟩ | ⟨-, a, d, hst, hcase⟩
+      · rw [h0]
+        refine ⟨by simpa using hm, ?_⟩
+        intro a d hst'
+        obtain ⟨hst0, hn⟩ := hkeep a d hst'
+        obtain ⟨pre, hp', hd, pdu, a8, e1, e2, e3⟩ := hl a d hst0
+        exact ⟨pre, hp', hd, pdu, a8, by simpa [hn] using e1, e2, e3⟩
+      · exact ⟨matched_append_asks _ _ hm har, awaitLink_append hlink⟩
+      · obtain ⟨pre, hp', hd, pdu, a8, e1, e2, e3⟩ := hl a d hst
+        have hlast : log.getLast? = some (.transmit w.s.nextApp hp' (.send hd pdu)) := by rw [e1]; simp
+        rcases hcase with ⟨t, hv, hcc, hs'⟩ | ⟨new, hcc, har, hlink⟩
+        · rw [hcc]
+          refine ⟨matched_snoc hm ?_, ?_⟩
+          · exact ⟨by rw [validReply_eq, ← hts]; exact hv, hp', hd, pdu, a8, hlast, e2, e3⟩
+          · intro a' d' hst'; rw [hs'] at hst'; cases hst'
+        · rw [hcc]
+          have : log ++ .timeout w.s.nextApp a :: new = (log ++ [.timeout w.s.nextApp a]) ++ new := by simp
+          rw [this]
+          refine ⟨matched_append_asks _ _ (matched_snoc hm ⟨hp', hd, pdu, a8, hlast, e2, e3⟩) har, awaitLink_append hlink⟩
+    · cases hs
+
+theorem logInv_run {ts : Nat} : ∀ (calls : List ApiCall) (w w' : World) (log l : List AppCall), LogInv ts w log →
+    w.runLog calls = some (w', l) → LogInv ts w' (log ++ l) := by
+  intro calls
+  induction calls with
+  | nil => intro w w' log l hi h; cases h; simpa using hi
+  | cons a rest ih =>
+    intro w w' log l hi h
+    simp only [World.runLog] at h
+    split at h
+    · rename_i w1 l1 hs1
+      split at h
+      · rename_i w2 l2 hr2
+        cases h
+        have := ih w1 w' (log ++ l1) l2 (logInv_step a hi hs1) hr2
+        simpa using this
+      · cases h
+    · cases h
+
+/-- **`reply_or_timeout_once`** (whole histories).  For every parameter set, every set of applications
+and EVERY sequence of `poll` / `set_online` / `set_offline` calls (any bytes, times, PHY flags) from a
+fresh station: the run does not panic, and in its complete application call log every reply and every
+time-out is immediately preceded by a `transmit_telegram` callback of the same application whose
+telegram expects a reply from exactly that address (and a reply is admissible).  Hence each request
+gets at most one of reply / time-out (`at_most_one_answer`), never both, never twice, and nothing is
+delivered to an application that has no request outstanding. -/
+theorem reply_or_timeout_once (p : Params) (apps : Apps) (h1 : p.address < p.hsa) (h2 : p.hsa ≤ 126)
+    (hs : ScriptsOk apps) (calls : List ApiCall) :
+    ∃ w log, World.runLog { s := Station.new p, apps := apps, rx := [] } calls = some (w, log) ∧
+      Matched p.address log := by
+  obtain ⟨w, log, hr, -⟩ := runLog_total calls { s := Station.new p, apps := apps, rx := [] } (inv_init p apps h1 h2 hs)
+  refine ⟨w, log, hr, ?_⟩
+  have h0 : LogInv p.address { s := Station.new p, apps := apps, rx := [] } [] :=
+    ⟨rfl, matched_nil _, by intro a d hst; simp [Station.new] at hst⟩
+  have := logInv_run calls _ w [] log h0 hr
+  simpa using this.2.1
+
+/-- The same without any assumption on parameters or scripts, conditional on the run being regular. -/
+theorem reply_or_timeout_once' (p : Params) (apps : Apps) (calls : List ApiCall) (w : World) (log : List AppCall)
+    (hr : World.runLog { s := Station.new p, apps := apps, rx := [] } calls = some (w, log)) :
+    Matched p.address log := by
+  have h0 : LogInv p.address { s := Station.new p, apps := apps, rx := [] } [] :=
+    ⟨rfl, matched_nil _, by intro a d hst; simp [Station.new] at hst⟩
+  have := logInv_run calls _ w [] log h0 hr
+  simpa using this.2.1
+
+/-- Is `r` a reply or time-out for application `i`? -/
+def IsAnswerFor (i : Nat) : AppCall → Prop
+  | .reply j _ _ => j = i
+  | .timeout j _ => j = i
+  | .transmit .. => False
+
+/-- **At most one of reply / time-out per request**: in a matched log, between a `transmit_telegram`
+callback of application `i` and the next `transmit_telegram` callback of the same application, only
+the record directly after the request can be a reply or time-out for `i` — so there is at most one. -/
+theorem at_most_one_answer (ts : Nat) (log : List AppCall) (hm : Matched ts log)
+    (pre mid post : List AppCall) (i : Nat) (hp : Bool) (ans : AppAnswer)
+    (hlog : log = pre ++ .transmit i hp ans :: (mid ++ post))
+    (hno : ∀ hp' ans', AppCall.transmit i hp' ans' ∉ mid) :
+    ∀ (m1 m2 : List AppCall) (r : AppCall), mid = m1 ++ r :: m2 → IsAnswerFor i r → m1 = [] := by
+  intro m1 m2 r hmid hr
+  have := hm (pre ++ .transmit i hp ans :: m1) r (m2 ++ post) (by rw [hlog, hmid]; simp)
+  rcases List.eq_nil_or_concat m1 with h0 | ⟨m1', b, h0⟩
+  · exact h0
+  · exfalso
+    rw [h0] at this
+    have hl : (pre ++ AppCall.transmit i hp ans :: m1'.concat b).getLast? = some b := by
+      have e : pre ++ AppCall.transmit i hp ans :: m1'.concat b = (pre ++ AppCall.transmit i hp ans :: m1') ++ [b] := by simp
+      rw [e, List.getLast?_concat]
+    rw [hl] at this
+    have hb : b ∈ mid := by rw [hmid, h0]; simp
+    cases r with
+    | transmit => exact hr
+    | reply j a t =>
+      obtain ⟨-, hp', hd, pdu, a8, e, -, -⟩ := this
+      cases e
+      cases hr
+      exact hno _ _ hb
+    | timeout j a =>
+      obtain ⟨hp', hd, pdu, a8, e, -, -⟩ := this
+      cases e
+      cases hr
+      exact hno _ _ hb
+
+/-- `ask_only_with_token` and `answer_only_when_awaited` at every step of every history: whatever call
+sequence `pre` was made before, the next call `a` does not panic and its callbacks obey both rules with
+respect to the state `w` the station is in at that moment. -/
+theorem callbacks_trace (p : Params) (apps : Apps) (h1 : p.address < p.hsa) (h2 : p.hsa ≤ 126)
+    (hs : ScriptsOk apps) (pre : List ApiCall) (a : ApiCall) :
+    ∃ w w' l, World.run { s := Station.new p, apps := apps, rx := [] } pre = some w ∧ w.stepLog a = some (w', l) ∧
+      (∀ i hp ans, AppCall.transmit i hp ans ∈ l →
+        w.s.online = true ∧ ((∃ d fcd, w.s.st = .useToken d fcd) ∨
+          (∃ x d, w.s.st = .awaitData x d ∧ l.head? = some (.timeout w.s.nextApp x)))) ∧
+      (∀ r ∈ l, ∀ i x, ((∃ t, r = .reply i x t) ∨ r = .timeout i x) →
+        w.s.online = true ∧ (∃ d, w.s.st = .awaitData x d) ∧ i = w.s.nextApp ∧ l.head? = some r) := by
+  obtain ⟨w, w', l, hw, -, hl⟩ := reach_step p apps h1 h2 hs pre a
+  refine ⟨w, w', l, hw, hl, ?_, ?_⟩
+  · intro i hp ans hmem
+    cases a with
+    | poll now phy arrived =>
+      simp only [World.stepLog] at hl
+      split at hl
+      · rename_i c hc; cases hl
+        exact ask_only_with_token _ _ _ _ _ _ hc i hp ans hmem
+      · cases hl
+    | setOnline => cases hl; cases hmem
+    | setOffline => cases hl; cases hmem
+  · intro r hmem i x hk
+    cases a with
+    | poll now phy arrived =>
+      simp only [World.stepLog] at hl
+      split at hl
+      · rename_i c hc; cases hl
+        obtain ⟨e1, e2, e3, e4, -, -⟩ := answer_only_when_awaited _ _ _ _ _ _ hc r hmem i x hk
+        exact ⟨e1, e2, e3, e4⟩
+      · cases hl
+    | setOnline => cases hl; cases hmem
+    | setOffline => cases hl; cases hmem
+
+
+/-! ### Witnesses and non-vacuity -/
+
+/-- A station (TS 7) awaiting a reply from station 9 to a request of application 0, whose script
+continues with another request. -/
+def awaitingStation : Station :=
+  { (Station.new demoParams) with online := true, st := .awaitData 9 ⟨0, none⟩, lastBusActivity := some 0, endTokenHoldTime := 100000 }
+def awaitingApps : Apps := [[.send (fdlStatusRequestHeader 9 7) []]]
+
+theorem awaiting_inv : Inv awaitingStation awaitingApps := by
+  refine ⟨by decide, by decide, TokenRing.new_ok 7 (by decide), (fun h => by cases h), ?_, ?_, ?_, ?_, ?_, ?_, (by simp [awaitingStation])⟩
+  · intro cur hc; simp [awaitingStation, Station.new, demoParams] at hc ⊢; omega
+  · intro a ha; simp [awaitingStation] at ha
+  · intro a ha; simp [awaitingStation] at ha
+  · intro _; decide
+  · intro a d _; decide
+  · intro sc hsc ans hans hd pdu he
+    simp [awaitingApps] at hsc; subst hsc
+    simp at hans; subst hans
+    cases he
+    decide
+
+set_option maxRecDepth 100000 in
+theorem awaiting_eval : (match awaitingStation.poll awaitingApps 1000 false [] with
+    | .ok c => (c.s.st, c.calls)
+    | .panic _ => (.offline, [])) =
+    (.awaitData 9 ⟨0, none⟩, [.timeout 0 9, .transmit 0 false (.send (fdlStatusRequestHeader 9 7) [])]) := by decide
+
+/-- **Witness against the over-strong reading of `one_outstanding`**: "a poll that starts and ends in
+`AwaitDataResponse` asks nobody" is FALSE of the model (and of `do_await_data_response`, which calls
+`do_use_token` right after `handle_timeout`): from a state satisfying the invariant, one poll delivers
+the time-out of the outstanding request, asks the application again in the same poll, transmits its new
+request and ends in `AwaitDataResponse` again.  What does hold is `one_outstanding`: the time-out is
+delivered BEFORE anybody is asked. -/
+theorem ask_after_timeout_same_poll :
+    ∃ (s : Station) (apps : Apps) (c' : Ctx), Inv s apps ∧ s.st = .awaitData 9 ⟨0, none⟩ ∧
+      s.poll apps 1000 false [] = .ok c' ∧ c'.s.st = .awaitData 9 ⟨0, none⟩ ∧
+      c'.calls = [.timeout 0 9, .transmit 0 false (.send (fdlStatusRequestHeader 9 7) [])] := by
+  have he := awaiting_eval
+  cases hp : awaitingStation.poll awaitingApps 1000 false [] with
+  | panic site => rw [hp] at he; simp at he
+  | ok c =>
+    rw [hp] at he
+    simp only [Prod.mk.injEq] at he
+    exact ⟨awaitingStation, awaitingApps, c, awaiting_inv, rfl, hp, he.1, he.2⟩
+
+/-- Non-vacuity of the per-poll theorems: the witness poll satisfies their hypotheses (a
+`transmit_telegram` callback and a time-out occur), and their conclusions can be read off. -/
+example : ∃ (s : Station) (apps : Apps) (c' : Ctx), s.poll apps 1000 false [] = .ok c' ∧
+    AppCall.transmit 0 false (.send (fdlStatusRequestHeader 9 7) []) ∈ c'.calls ∧ AppCall.timeout 0 9 ∈ c'.calls := by
+  obtain ⟨s, apps, c', -, -, hp, -, hc⟩ := ask_after_timeout_same_poll
+  exact ⟨s, apps, c', hp, by rw [hc]; simp, by rw [hc]; simp⟩
+
+/-- Non-vacuity of the history theorem: a concrete call sequence. -/
+example : ∃ w log, World.runLog { s := Station.new demoParams, apps := [[.decline]], rx := [] }
+    [.setOnline, .poll 100 false [0xDC, 7, 3], .poll 100000 false [], .setOffline] = some (w, log) ∧ Matched 7 log :=
+  reply_or_timeout_once _ _ (by decide) (by decide)
+    (by intro s hs a ha h pdu he; simp at hs; subst hs; simp at ha; subst ha; cases he) _
 
 end PV.C15
